@@ -80,6 +80,11 @@ let () =
         let ((st, evf), evc) = wrapper_io_run w (z_of_int (int_of_string fd)) (piece sent) (piece recs) nl (nat_of_int (int_of_string lines)) (term_of term)
             (List.map outcome_of_token fo) (List.map outcome_of_token co) in
         print_endline (string_of_status st ^ " " ^ String.concat "" (List.map (string_of_event false) evf) ^ " | " ^ String.concat "" (List.map (string_of_event false) evc))
+      | "L" :: words :: fd :: rest ->
+        (* L <number of command words> <status pipe fd> | outcomes *)
+        let _, outs = split_bar rest [] in
+        let (st, evs) = launch_status (nat_of_int (int_of_string words)) (z_of_int (int_of_string fd)) (List.map outcome_of_token outs) (Exited Z0) in
+        print_endline (string_of_status st ^ " " ^ String.concat "" (List.map (string_of_event false) evs))
       | "F" :: fd :: lens :: rest ->
         (* F <fd> <line lengths, comma or -> | outcomes : one shard output *)
         let _, outs = split_bar rest [] in
